@@ -404,6 +404,168 @@ def _run(fx, case, env):
     return ok(label) if nontrivial else trivial()
 
 
+# ------------------------------------------------------------------ context
+
+CONTEXT = ["start-unlocked", "start-twice", "commit-without-group",
+           "abort-without-group", "context-manager", "unlock-in-group",
+           "reuse-after-refusal", "reuse-after-abort", "reuse-after-commit",
+           "reuse-after-suspend"]
+
+
+def enum_context(tier):
+    for fmt in ("2a", "pack-0.92"):
+        for name in CONTEXT:
+            yield {"format": fmt, "scenario": name}
+
+
+def _stores(fmt):
+    return ["texts"] + (["chk_bytes"] if fmt == "2a" else []) + [
+        "inventories", "revisions"]
+
+
+def _plan(fmt, rev, without=()):
+    return [{"vf": vf, "rev": rev, "drop": [], "closure": True}
+            for vf in _stores(fmt) if vf not in without]
+
+
+def run_context(case, env):
+    """Write-group context management on ONE long-lived repository object:
+    refusals leave the object and the store usable, nothing leaks from an
+    ended group into the next one."""
+    from breezy import errors
+    from breezy.repository import WriteGroup
+    fmt = case["format"]
+    sc = case["scenario"]
+    base = {"format": fmt, "stacked": False, "nrevs": 4, "base": 1,
+            "nfiles": 2, "sizes": [300], "wide": 0, "ins": [], "cuts": [],
+            "end": "commit", "badtok": None}
+    fx = Fixture(base, env)
+    try:
+        before, up0 = wg.snapshot(fx.A)
+        model = wg.GroupModel(fx.u, fx.local_keys(fx.A), fx.fallback_keys)
+        from breezy import branch as _b
+        repo = _b.Branch.open(fx.A).repository
+
+        def insert(plan):
+            for ins in plan:
+                _insert(fx, repo, ins, model)
+
+        def expect_error(fn, what):
+            try:
+                fn()
+            except errors.BzrError as e:
+                return type(e).__name__
+            check(False, "C06/context-%s-not-refused" % what, sc)
+
+        if sc == "start-unlocked":
+            expect_error(repo.start_write_group, "start-without-write-lock")
+            check(not repo.is_in_write_group(),
+                  "C06/context-write-group-open-after-refused-start", sc)
+            _assert_unchanged(fx.A, before, up0, "refused", sc)
+            return ok("context/%s/%s" % (fmt, sc))
+        repo.lock_write()
+        try:
+            if sc == "start-twice":
+                repo.start_write_group()
+                insert(_plan(fmt, 1))
+                expect_error(repo.start_write_group, "second-start")
+                check(repo.is_in_write_group(),
+                      "C06/context-refused-second-start-closed-the-group", sc)
+                repo.commit_write_group()
+            elif sc == "commit-without-group":
+                expect_error(repo.commit_write_group, "commit-without-group")
+            elif sc == "abort-without-group":
+                expect_error(repo.abort_write_group, "abort-without-group")
+                repo.abort_write_group(suppress_errors=True)
+            elif sc == "context-manager":
+                class Boom(Exception):
+                    pass
+                try:
+                    with WriteGroup(repo):
+                        insert(_plan(fmt, 1))
+                        raise Boom()
+                except Boom:
+                    pass
+                check(not repo.is_in_write_group(),
+                      "C06/context-manager-left-group-open", sc)
+                repo.unlock()
+                _assert_unchanged(fx.A, before, up0, "aborted", sc)
+                repo.lock_write()
+                model.ins = {vf: set() for vf in wg.VFS}
+                with WriteGroup(repo):
+                    insert(_plan(fmt, 1))
+            elif sc == "unlock-in-group":
+                repo.start_write_group()
+                insert(_plan(fmt, 1))
+                # unlock() is declared only_raises(LockNotHeld, LockBroken):
+                # the "must end write group" error is logged, not raised; the
+                # group must be aborted and the lock released all the same
+                repo.unlock()
+                check(not repo.is_locked() and not repo.is_in_write_group(),
+                      "C06/context-unlock-in-group-left-object-locked", sc)
+                _assert_unchanged(fx.A, before, up0, "aborted", sc)
+                return ok("context/%s/%s" % (fmt, sc))
+            elif sc.startswith("reuse-after-"):
+                # first group on this object: revision 2 without its
+                # inventory (and its texts), ended in the named way ...
+                repo.start_write_group()
+                first = _plan(fmt, 1) + _plan(fmt, 2, without=(
+                    "inventories", "texts"))
+                how = sc[len("reuse-after-"):]
+                if how == "commit":
+                    first = _plan(fmt, 1)
+                insert(first)
+                if how == "refusal":
+                    refused = False
+                    try:
+                        repo.commit_write_group()
+                    except _check_errors():
+                        refused = True
+                        repo.abort_write_group()
+                    if not refused:
+                        # knit-pack formats accept it (F28)
+                        return violation(F28, ["context", sc],
+                                         label="context/%s/%s" % (fmt, sc))
+                elif how == "abort":
+                    repo.abort_write_group()
+                elif how == "suspend":
+                    repo.suspend_write_group()
+                else:
+                    repo.commit_write_group()
+                if how != "commit":
+                    repo.unlock()
+                    _assert_unchanged(fx.A, before, up0 if how != "suspend"
+                                      else wg.snapshot(fx.A)[1],
+                                      "aborted", sc)
+                    repo.lock_write()
+                    model.ins = {vf: set() for vf in wg.VFS}
+                up_now = wg.snapshot(fx.A)[1]
+                # ... then a second, complete group on the SAME object must
+                # be judged on its own content
+                repo.start_write_group()
+                insert(_plan(fmt, 1) if how != "commit" else _plan(fmt, 2))
+                try:
+                    repo.commit_write_group()
+                except _check_errors() as e:
+                    repo.abort_write_group()
+                    check(False, "C06/context-state-leaked-into-next-group",
+                          [sc, str(e)[:300]])
+                up0 = up_now
+        finally:
+            if repo.is_in_write_group():
+                repo.abort_write_group(suppress_errors=True)
+            if repo.is_locked():
+                repo.unlock()
+        if sc in ("commit-without-group", "abort-without-group"):
+            _assert_unchanged(fx.A, before, up0, "refused", sc)
+        else:
+            _committed_state(fx, fx.A, before, up0, model, sc)
+            _content_equal(fx, fx.A, model, sc)
+        return ok("context/%s/%s" % (fmt, sc))
+    finally:
+        fx.close()
+
+
 # ------------------------------------------------------------------ faults
 
 def run_faults(case, env):
@@ -585,6 +747,8 @@ def kinds(tier):
     return [
         Kind("programs", run, strategy=program(tier),
              examples={"quick": 400, "thorough": 20000}),
+        Kind("context", run_context, enumerate=enum_context, exhaustive=True,
+             hash_cases=False),
         Kind("fault-enumeration", run_faults,
              strategy=program(tier, for_faults=True),
              examples={"quick": 16, "thorough": 800}),
